@@ -166,7 +166,9 @@ impl Printer {
                     };
                     if g.delimiter() == Delimiter::Brace {
                         let mut inner = g.stream();
+                        let mut closure_entry: Option<String> = None;
                         if let Some((kind, arg, n)) = marker(&inner) {
+                            if kind == "__vx_closure" { closure_entry = Some(arg.clone()); }
                             let ph = if kind == "__vx_loop" {
                                 format!("__VX_LOOP_{}__", arg)
                             } else {
@@ -177,6 +179,13 @@ impl Printer {
                         }
                         let sb = self.space_before(tt);
                         self.word(open, sb);
+                        if let Some(k) = closure_entry.take() {
+                            self.indent += 1;
+                            self.newline();
+                            self.word(&format!("__VX_ANCHOR_closure_entry_{}__", k), false);
+                            self.newline();
+                            self.indent -= 1;
+                        }
                         if inner.is_empty() {
                             self.word(close, false);
                             self.last = Last::Close;
